@@ -980,8 +980,10 @@ func (s *Store[K, V]) processSecondary() {
 		tk := item.shard.mu.RLock()
 		// first double check key still exists in map,
 		// not exist means key already deleted by Delete API
-		_, exist := item.shard.get(item.entry.key)
-		if exist {
+		// (by identity: the key may have been deleted and set again meanwhile,
+		// then this entry holds an old value that must not be written)
+		current, exist := item.shard.get(item.entry.key)
+		if exist && current == item.entry {
 			err := s.secondaryCache.Set(
 				item.entry.key, item.entry.value,
 				item.entry.weight.Load(), item.entry.expire.Load(),
